@@ -29,7 +29,8 @@ Known == {"nl.bsn", "nl.onderwijsnummer", "pl.nip", "pl.regon", "pt.nif", "dk.cv
           "ad.nrt", "bg.pnf", "do.ncf", "es.cae", "fi.ytunnus", "fr.nif", "gb.upn", "ie.vat", "pe.cui", "pt.cc", "ru.ogrn",
           "se.postnummer", "se.vat", "si.maticna", "sm.coe", "sv.nit", "th.moa",
           "bg.egn", "cu.ni", "cz.rc", "sk.rc", "lt.asmens", "ro.cnp", "kr.rrn", "gr.amka", "is_.kennitala",
-          "es.cups", "es.nif", "es.referenciacatastral", "fr.nir", "in_.gstin", "si.emso", "tn.mf", "tw.ubn", "ua.rntrc", "us.ptin"}
+          "es.cups", "es.nif", "es.referenciacatastral", "fr.nir", "in_.gstin", "si.emso", "tn.mf", "tw.ubn", "ua.rntrc", "us.ptin",
+          "bg.vat", "cz.dic", "sk.dph", "ro.cf", "th.tin"}
 (* formats with further rules (dates, ranges) that are not transcribed: the checksum is only a NECESSARY condition *)
 Necessary == {"no.fodselsnummer", "fi.hetu", "ch.ssn", "lv.pvn", "pl.pesel", "ee.ik", "at.tin", "dk.cpr", "za.idnr"}
 
@@ -106,6 +107,20 @@ CatVal(ch) == IF ch <= 57 THEN ch - 48 ELSE IF ch <= 78 THEN ch - 64 ELSE ch - 6
 CatLetters == <<77, 81, 87, 69, 82, 84, 89, 85, 73, 79, 80, 65, 83, 68, 70, 71, 72, 74, 75, 76, 66, 90, 88>>
 CatCheck(eleven) == CatLetters[(Sum(LAMBDA i : <<13, 15, 12, 5, 4, 17, 9, 21, 3, 7, 1>>[i] * CatVal(eleven[i]), 11) % 23) + 1]
 CupsLetters == <<84, 82, 87, 65, 71, 77, 89, 70, 80, 68, 88, 66, 78, 74, 90, 83, 81, 86, 72, 76, 67, 75, 69>>
+BgEgnOk(c) == /\ Len(c) = 10 /\ IsDigits(c) /\ (W(c, <<2, 4, 8, 5, 10, 9, 7, 3, 6>>) % 11) % 10 = D(c[10])
+                       /\ LET yy == NumOf(c, 1, 2)  mm == NumOf(c, 3, 4)
+                          IN IF mm > 40 THEN NRealDate(2000 + yy, mm - 40, NumOf(c, 5, 6))
+                             ELSE IF mm > 20 THEN NRealDate(1800 + yy, mm - 20, NumOf(c, 5, 6)) ELSE NRealDate(1900 + yy, mm, NumOf(c, 5, 6))
+BgPnfOk(c) == Len(c) = 10 /\ IsDigits(c) /\ W(c, <<21, 19, 17, 13, 11, 9, 7, 3, 1>>) % 10 = D(c[10])
+RoCnpOk(c) == /\ Len(c) = 13 /\ IsDigits(c) /\ c[1] # 48
+                       /\ NRealDate((CASE D(c[1]) \in {3, 4} -> 1800 [] D(c[1]) \in {5, 6} -> 2000 [] OTHER -> 1900) + NumOf(c, 2, 3), NumOf(c, 4, 5), NumOf(c, 6, 7))
+                       /\ NumOf(c, 8, 9) \in (1..48) \cup {51, 52}
+                       /\ LET r == W(c, <<2, 7, 9, 1, 4, 6, 3, 5, 8, 2, 7, 9>>) % 11 IN (IF r = 10 THEN 1 ELSE r) = D(c[13])
+RoCuiOk(c) == /\ Len(c) >= 2 /\ Len(c) <= 10 /\ IsDigits(c) /\ c[1] # 48
+                       /\ LET z == ZFill(c, 10) IN ((W(z, <<7, 5, 3, 2, 1, 7, 5, 3, 2>>) * 10) % 11) % 10 = D(z[10])
+ThPinOk(c) == /\ Len(c) = 13 /\ IsDigits(c) /\ D(c[1]) \notin {0, 9}
+                       /\ (11 - (W(c, <<13, 12, 11, 10, 9, 8, 7, 6, 5, 4, 3, 2>>) % 11)) % 10 = D(c[13])
+ThMoaOk(c) == Len(c) = 13 /\ IsDigits(c) /\ c[1] = 48 /\ ThPinCheck(c) = D(c[13])
 EstonianCheck(c, n) ==        \* check digit over the first n digits: weights 1,2,..,9,1,.. and, when that gives 10, 3,4,..,9,1,2,..
   LET s1 == Sum(LAMBDA i : (((i - 1) % 9) + 1) * D(c[i]), n) % 11
       s2 == Sum(LAMBDA i : (((i + 1) % 9) + 1) * D(c[i]), n) % 11
@@ -153,8 +168,7 @@ AcceptN(m, c) ==
     [] m = "il.idnr" -> Len(c) = 9 /\ IsDigits(c) /\ ~AllZero(c) /\ Sum(LAMBDA i : IF i % 2 = 0 THEN DigitSum(2 * D(c[i])) ELSE D(c[i]), 9) % 10 = 0
     [] m = "de.vat" -> Len(c) = 9 /\ IsDigits(c) /\ c[1] # 48 /\ FoldLeft(LAMBDA q, ch : ((((IF q = 0 THEN 10 ELSE q) * 2) % 11) + D(ch)) % 10, 5, c) = 1
     [] m = "hr.oib" -> Len(c) = 11 /\ IsDigits(c) /\ FoldLeft(LAMBDA q, ch : ((((IF q = 0 THEN 10 ELSE q) * 2) % 11) + D(ch)) % 10, 5, c) = 1
-    [] m = "ro.cui" -> /\ Len(c) >= 2 /\ Len(c) <= 10 /\ IsDigits(c) /\ c[1] # 48
-                       /\ LET z == ZFill(c, 10) IN ((W(z, <<7, 5, 3, 2, 1, 7, 5, 3, 2>>) * 10) % 11) % 10 = D(z[10])
+    [] m = "ro.cui" -> RoCuiOk(c)
     [] m = "ru.inn" -> /\ IsDigits(c) /\ Len(c) \in {10, 12}
                        /\ IF Len(c) = 10 THEN (W(c, <<2, 4, 10, 3, 5, 9, 4, 6, 8>>) % 11) % 10 = D(c[10])
                           ELSE /\ (W(c, <<7, 2, 4, 10, 3, 5, 9, 4, 6, 8>>) % 11) % 10 = D(c[11])
@@ -227,8 +241,7 @@ AcceptN(m, c) ==
     [] m = "vn.mst" -> /\ Len(c) \in {10, 13} /\ IsDigits(c) /\ NumOf(c, 3, 9) # 0 /\ (Len(c) = 13 => NumOf(c, 11, 13) # 0)
                        /\ 10 - (W(c, <<31, 29, 23, 19, 17, 13, 7, 5, 3>>) % 11) = D(c[10])
     [] m = "za.tin" -> Len(c) = 10 /\ IsDigits(c) /\ D(c[1]) \in {0, 1, 2, 3, 9} /\ LuhnSum(c) % 10 = 0
-    [] m = "th.pin" -> /\ Len(c) = 13 /\ IsDigits(c) /\ D(c[1]) \notin {0, 9}
-                       /\ (11 - (W(c, <<13, 12, 11, 10, 9, 8, 7, 6, 5, 4, 3, 2>>) % 11)) % 10 = D(c[13])
+    [] m = "th.pin" -> ThPinOk(c)
     [] m = "lt.pvm" -> /\ IsDigits(c) /\ Len(c) \in {9, 12} /\ c[Len(c) - 1] = 49
                        /\ EstonianCheck(c, Len(c) - 1) = D(c[Len(c)])
     [] m = "fi.veronumero" -> Len(c) = 12 /\ IsDigits(c)
@@ -361,7 +374,7 @@ AcceptN(m, c) ==
     [] m = "ad.nrt" -> /\ Len(c) = 8 /\ In(c[1], <<65, 67, 68, 69, 70, 71, 76, 79, 80, 85>>) /\ c[8] \in 65..90 /\ IsDigits(SubSeq(c, 2, 7))
                        /\ (c[1] = 70 => NumOf(c, 2, 7) <= 699999)
                        /\ (c[1] \in {65, 76} => (NumOf(c, 2, 7) > 699999 /\ NumOf(c, 2, 7) < 800000))
-    [] m = "bg.pnf" -> Len(c) = 10 /\ IsDigits(c) /\ W(c, <<21, 19, 17, 13, 11, 9, 7, 3, 1>>) % 10 = D(c[10])
+    [] m = "bg.pnf" -> BgPnfOk(c)
     [] m = "do.ncf" -> CASE Len(c) = 13 -> c[1] = 69 /\ IsDigits(SubSeq(c, 2, 13)) /\ NumOf(c, 2, 3) \in {31, 32, 33, 34, 41, 43, 44, 45, 46, 47}
                          [] Len(c) = 11 -> c[1] = 66 /\ IsDigits(SubSeq(c, 2, 11)) /\ NumOf(c, 2, 3) \in {1, 2, 3, 4, 11, 12, 13, 14, 15, 16, 17}
                          [] Len(c) = 19 -> c[1] \in {65, 80} /\ IsDigits(SubSeq(c, 2, 19)) /\ NumOf(c, 10, 11) \in {1, 2, 3, 4, 11, 12, 13, 14, 15, 16, 17}
@@ -400,21 +413,15 @@ AcceptN(m, c) ==
                        /\ IF NumOf(c, 11, 13) <= 100
                           THEN (W(c, <<14, 13, 12, 11, 10, 9, 8, 7, 6, 5, 4, 3, 2>>) % 11) % 10 = D(c[14])
                           ELSE ((11 - (W(c, <<2, 7, 6, 5, 4, 3, 2, 7, 6, 5, 4, 3, 2>>) % 11)) % 11) % 10 = D(c[14])
-    [] m = "th.moa" -> Len(c) = 13 /\ IsDigits(c) /\ c[1] = 48 /\ ThPinCheck(c) = D(c[13])
-    [] m = "bg.egn" -> /\ Len(c) = 10 /\ IsDigits(c) /\ (W(c, <<2, 4, 8, 5, 10, 9, 7, 3, 6>>) % 11) % 10 = D(c[10])
-                       /\ LET yy == NumOf(c, 1, 2)  mm == NumOf(c, 3, 4)
-                          IN IF mm > 40 THEN NRealDate(2000 + yy, mm - 40, NumOf(c, 5, 6))
-                             ELSE IF mm > 20 THEN NRealDate(1800 + yy, mm - 20, NumOf(c, 5, 6)) ELSE NRealDate(1900 + yy, mm, NumOf(c, 5, 6))
+    [] m = "th.moa" -> ThMoaOk(c)
+    [] m = "bg.egn" -> BgEgnOk(c)
     [] m = "cu.ni" -> /\ Len(c) = 11 /\ IsDigits(c)
                       /\ NRealDate((IF c[7] = 57 THEN 1800 ELSE IF c[7] <= 53 THEN 1900 ELSE 2000) + NumOf(c, 1, 2), NumOf(c, 3, 4), NumOf(c, 5, 6))
     [] m \in {"cz.rc", "sk.rc"} -> RcOk(c)
     [] m = "lt.asmens" -> /\ Len(c) = 11 /\ IsDigits(c) /\ EstonianCheck(c, 10) = D(c[11])
                           /\ (c[1] # 57 => (/\ c[1] \in 49..56
                                             /\ NRealDate(1800 + 100 * ((D(c[1]) - 1) \div 2) + NumOf(c, 2, 3), NumOf(c, 4, 5), NumOf(c, 6, 7))))
-    [] m = "ro.cnp" -> /\ Len(c) = 13 /\ IsDigits(c) /\ c[1] # 48
-                       /\ NRealDate((CASE D(c[1]) \in {3, 4} -> 1800 [] D(c[1]) \in {5, 6} -> 2000 [] OTHER -> 1900) + NumOf(c, 2, 3), NumOf(c, 4, 5), NumOf(c, 6, 7))
-                       /\ NumOf(c, 8, 9) \in (1..48) \cup {51, 52}
-                       /\ LET r == W(c, <<2, 7, 9, 1, 4, 6, 3, 5, 8, 2, 7, 9>>) % 11 IN (IF r = 10 THEN 1 ELSE r) = D(c[13])
+    [] m = "ro.cnp" -> RoCnpOk(c)
     [] m = "kr.rrn" -> /\ Len(c) = 13 /\ IsDigits(c) /\ NumOf(c, 8, 9) <= 96
                        /\ NRealDate((CASE D(c[7]) \in {1, 2, 5, 6} -> 1900 [] D(c[7]) \in {3, 4, 7, 8} -> 2000 [] OTHER -> 1800) + NumOf(c, 1, 2), NumOf(c, 3, 4), NumOf(c, 5, 6))
                        /\ (11 - (W(c, <<2, 3, 4, 5, 6, 7, 8, 9, 2, 3, 4, 5>>) % 11)) % 10 = D(c[13])
@@ -452,6 +459,24 @@ AcceptN(m, c) ==
                        /\ LET cs == Sum(LAMBDA i : DigitSum(<<1, 2, 1, 2, 1, 2, 4, 1>>[i] * D(c[i])), 8) % 10 IN cs = 0 \/ (cs = 9 /\ c[7] = 55)
     [] m = "ua.rntrc" -> Len(c) = 10 /\ IsDigits(c) /\ (W(c, <<10, 5, 7, 9, 4, 6, 10, 5, 7>>) % 11) % 10 = D(c[10])
     [] m = "us.ptin" -> Len(c) = 9 /\ c[1] \in {80, 112} /\ IsDigits(SubSeq(c, 2, 9))
+    [] m = "bg.vat" -> /\ IsDigits(c)
+                       /\ \/ /\ Len(c) = 9
+                             /\ LET s1 == Sum(LAMBDA i : i * D(c[i]), 8) % 11  s2 == Sum(LAMBDA i : (i + 2) * D(c[i]), 8) % 11
+                                IN ((IF s1 = 10 THEN s2 ELSE s1) % 10) = D(c[9])
+                          \/ /\ Len(c) = 10
+                             /\ (BgEgnOk(c) \/ BgPnfOk(c) \/ (11 - (W(c, <<4, 3, 2, 7, 6, 5, 4, 3, 2>>) % 11)) % 11 = D(c[10]))
+    [] m = "cz.dic" -> /\ IsDigits(c)
+                       /\ CASE Len(c) = 8 -> /\ c[1] # 57
+                                             /\ LET r == (11 - (W(c, <<8, 7, 6, 5, 4, 3, 2>>) % 11)) % 11 IN ((IF r = 0 THEN 1 ELSE r) % 10) = D(c[8])
+                            [] Len(c) = 9 /\ c[1] = 54 -> LET chk == W(SubSeq(c, 2, 8), <<8, 7, 6, 5, 4, 3, 2>>) % 11
+                                                          IN (18 - ((10 - chk) % 11)) % 10 = D(c[9])
+                            [] Len(c) \in {9, 10} -> RcOk(c)
+                            [] OTHER -> FALSE
+    [] m = "sk.dph" -> /\ Len(c) = 10 /\ IsDigits(c)
+                       /\ (RcOk(c) \/ (c[1] # 48 /\ D(c[3]) \in {2, 3, 4, 7, 8, 9} /\ ModOf(c, 11) = 0))
+    [] m = "ro.cf" -> LET cn == IF Len(c) >= 2 /\ SubSeq(c, 1, 2) = <<82, 79>> THEN SubSeq(c, 3, Len(c)) ELSE c
+                      IN IF Len(cn) = 13 THEN RoCnpOk(cn) ELSE RoCuiOk(cn)
+    [] m = "th.tin" -> ThMoaOk(c) \/ ThPinOk(c)
 
 (* checksum parts of formats with further rules *)
 NecessaryN(m, c) ==
